@@ -73,10 +73,35 @@ fn main() {
     sink.merge(struct_sweep(&run, &[&SCT], &scts, d, &sfx, 96, &extra));
     sink.merge(struct_sweep(&run, &[&SCT_LIST], &lists, d, &sfx, 96, &extra));
     sink.merge(struct_sweep(&run, &[&SCT_LIST], &cat::sct_lists_many(), run.tier.pick(0, 1), &sfx, 32, &extra));
-    for style in [1u8, 3, 4] {
+    for style in [1u8, 3, 4, 6, 7, 8] {
         use vcommon::en::with_fill_style as wfs;
         sink.merge(struct_sweep(&run, &[&SCT], &wfs(style, || cat::scts(false)), 0, &sfx, 96, &extra));
         sink.merge(struct_sweep(&run, &[&SCT_LIST], &wfs(style, || cat::sct_lists(false)), 0, &sfx, 96, &extra));
+    }
+    // every size of the two variable-length fields of an SCT (consistent enclosing lengths), single and in a list
+    for which in 0..2 {
+        let b = move |n: usize| {
+            let mut w = W::new();
+            w.block(2, "sct_list_len", |w| {
+                if which == 0 {
+                    cat::sct_entry(w, 0, 9, 0, 4, 3, n)
+                } else {
+                    cat::sct_entry(w, 0, 9, n, 4, 3, 2)
+                }
+            });
+            w
+        };
+        sink.merge(size_sweep(&run, &[&SCT_LIST], 65000, &b, &extra));
+        let b1 = move |n: usize| {
+            let mut w = W::new();
+            if which == 0 {
+                cat::sct_entry(&mut w, 0, 9, 1, 4, 3, n)
+            } else {
+                cat::sct_entry(&mut w, 0, 9, n, 4, 3, 1)
+            }
+            w
+        };
+        sink.merge(size_sweep(&run, &[&SCT], 65000, &b1, &extra));
     }
     // single entries are also lists-of-bytes for the list parser and vice versa (nesting confusion)
     sink.merge(struct_sweep(&run, &[&SCT_LIST], &scts, 0, &sfx, 96, &extra));
@@ -138,7 +163,7 @@ fn main() {
     cov.insert("catalogue_lists".into(), json!(nl));
     cov.insert("sweep_cases".into(), json!(nsweeps));
     cov.insert("rule".into(), json!(format!(
-        "struct: {} single SCT entries and {} lists of 0..3 SCTs (plus lists of 255 / 256 / 257 / 1000 / 1285 entries) x every combination of <= {} deviations (3 nested length prefixes each in {{0,1,true-1,true+1,max}}, every cut, 7 suffixes incl. one and two valid SCT entries); all 256 versions, all 65536 algorithm pairs, timestamps over all single/double-bit patterns and every byte x all values; every string of bounded length over positional alphabets; well-formed 45-byte SCT prefix followed by every tail of length <= {}. Oracle: strict RFC 6962 walker + 'a malformed list yields at most the entries before the first bad one, all inside the declared list'. Non-trivial: every case",
+        "struct: {} single SCT entries and {} lists of 0..3 SCTs (plus lists of 255 / 256 / 257 / 1000 / 1285 entries) x every combination of <= {} deviations (3 nested length prefixes each in {{0,1,true-1,true+1,max}}, every cut, 7 suffixes incl. one and two valid SCT entries); every signature / extension size 0..65000 with consistent enclosing lengths (quick tier: the size set of sweep::sizes); all 256 versions, all 65536 algorithm pairs, timestamps over all single/double-bit patterns and every byte x all values; every string of bounded length over positional alphabets; well-formed 45-byte SCT prefix followed by every tail of length <= {}. Oracle: strict RFC 6962 walker + 'a malformed list yields at most the entries before the first bad one, all inside the declared list'. Non-trivial: every case",
         ns, nl, d, tn)));
     let code = run.finish(&sink, cov, vec!["strict walker per DESIGN appendix D; trailing bytes inside an entry are Unspecified".into()]);
     std::process::exit(code);
